@@ -110,17 +110,59 @@ pub async fn read<S>(
 where
     S: Isatty + Read + WriteAll + 'static,
 {
+    let mut last_byte = None;
+    let result = read_line(env, delimiter, is_raw, &mut last_byte).await;
+    if result == Err(Errno::EILSEQ.into()) {
+        // The line is still the one this built-in was asked to consume. Do not
+        // leave its remainder for the next reader of the standard input.
+        skip_rest_of_line(env, delimiter, is_raw, last_byte).await;
+    }
+    result
+}
+
+/// Consumes the standard input up to the delimiter, ignoring the content.
+///
+/// `last_byte` is the byte that has been read last (`None` on end of input).
+async fn skip_rest_of_line<S: Read>(
+    env: &mut Env<S>,
+    delimiter: u8,
+    is_raw: bool,
+    mut last_byte: Option<u8>,
+) {
+    let mut escaped = false;
+    while let Some(byte) = last_byte {
+        if !escaped && byte == delimiter {
+            break;
+        }
+        escaped = !is_raw && !escaped && byte == b'\\';
+        let mut next = 0;
+        last_byte = match env.system.read(Fd::STDIN, std::slice::from_mut(&mut next)).await {
+            Ok(1) => Some(next),
+            _ => None,
+        };
+    }
+}
+
+async fn read_line<S>(
+    env: &mut Env<S>,
+    delimiter: u8,
+    is_raw: bool,
+    last_byte: &mut Option<u8>,
+) -> Result<(Vec<AttrChar>, bool), Error>
+where
+    S: Isatty + Read + WriteAll + 'static,
+{
     let mut result = Vec::new();
 
     let newline_found = loop {
         // TODO Read in bulk if the standard input is seekable
-        match read_char(env).await? {
+        match read_char(env, last_byte).await? {
             None => break false,
             Some(c) if c == delimiter.into() => break true,
 
             // Backslash escape
             Some('\\') if !is_raw => {
-                let c = read_char(env).await?;
+                let c = read_char(env, last_byte).await?;
                 if c == Some('\n') {
                     // Line continuation
                     print_prompt(env).await;
@@ -146,7 +188,10 @@ where
 /// This function reads a single UTF-8-encoded character from the standard
 /// input. If the standard input is empty, this function returns `Ok(None)`.
 /// If the input is not a valid UTF-8 sequence, this function returns an error.
-async fn read_char<S>(env: &mut Env<S>) -> Result<Option<char>, Error>
+async fn read_char<S>(
+    env: &mut Env<S>,
+    last_byte: &mut Option<u8>,
+) -> Result<Option<char>, Error>
 where
     S: Isatty + Read + WriteAll,
 {
@@ -160,6 +205,7 @@ where
         let count = env.system.read(Fd::STDIN, byte).await?;
         if count == 0 {
             // End of input
+            *last_byte = None;
             return if len == 0 {
                 Ok(None)
             } else {
@@ -168,6 +214,7 @@ where
             };
         }
         debug_assert_eq!(count, 1);
+        *last_byte = Some(buffer[len]);
         len += 1;
 
         match std::str::from_utf8(&buffer[..len]) {
